@@ -2,5 +2,6 @@ SPECIFICATION Spec
 CONSTANTS
   MaxReq = 4
   MaxOps = 3
+  T0Set = {0, 6}
   EmitOn = TRUE
 CHECK_DEADLOCK FALSE
